@@ -1584,6 +1584,65 @@ def comp_cases(ctx, r, lines, checks):
         checks.append((site + ' vs Gen.compBinary (draws recorded)', 'attenuated channel', 'ok ' + canon_bqm(b), src, bad))
 
 
+def qpsk_cases(ctx, r, lines, checks):
+    """mimo('QPSK', y, F): "bits are encoded as a real vector concatenated with an imaginary vector": 2·nt spin variables,
+    energy == ||y - F (p + i q)||^2 with p = s[:nt], q = s[nt:]; real-valued data included (imaginary parts all 0)"""
+    from dimod.generators.wireless import mimo
+    site = 'generators.mimo'
+    pre = HDR + 'from dimod.generators.wireless import mimo\n'
+    for rep in range(ctx.scale(30, 500)):
+        nt = r.randint(1, 3); nr = r.randint(1, 3)
+        kind = r.choice(['complex', 'complex', 'real F', 'real y and F', 'y = F v, real F'])
+        z = lambda: F(r.randint(-6, 6), r.choice([1, 1, 2]))   # noqa: E731
+        Fr = [[z() for _ in range(nt)] for _ in range(nr)]
+        Fi = [[z() if kind == 'complex' else F(0) for _ in range(nt)] for _ in range(nr)]
+        if kind == 'y = F v, real F':
+            # a noise-free signal of QPSK symbols ±1±i through a ±1 channel: y is real whenever the imaginary parts cancel
+            Fr = [[F(r.choice([-1, 1])) for _ in range(nt)] for _ in range(nr)]
+            p0 = [r.choice([-1, 1]) for _ in range(nt)]; q0 = [r.choice([-1, 1]) for _ in range(nt)]
+            yr = [sum(Fr[k][i] * p0[i] for i in range(nt)) for k in range(nr)]; yi = [sum(Fr[k][i] * q0[i] for i in range(nt)) for k in range(nr)]
+        else:
+            yr = [z() for _ in range(nr)]; yi = [z() if kind != 'real y and F' else F(0) for _ in range(nr)]
+        cplx = lambda a, b: complex(float(a), float(b))   # noqa: E731
+        ysrc = f'np.array({[cplx(a, b) for a, b in zip(yr, yi)]!r})'
+        Fsrc = f'np.array({[[cplx(a, b) for a, b in zip(ra, rb)] for ra, rb in zip(Fr, Fi)]!r})'
+        call = f'mimo("QPSK", {ysrc}, {Fsrc})'
+        with warnings.catch_warnings():
+            warnings.simplefilter('ignore')
+            b = eval(call, {'mimo': mimo, 'np': np})
+        # F^dagger y and F^dagger F real (e.g. real-valued data, or a noise-free signal whose imaginary parts cancel)
+        real_data = (all(sum(Fr[k][i] * yi[k] - Fi[k][i] * yr[k] for k in range(nr)) == 0 for i in range(nt))
+                     and all(sum(Fr[k][i] * Fi[k][j] - Fi[k][i] * Fr[k][j] for k in range(nr)) == 0 for i in range(nt) for j in range(nt)))
+        cls = 'QPSK, F^H y and F^H F real' if real_data else 'QPSK: energy vs ||y - F v||^2'
+        ctx.tick('mimo:qpsk:' + kind + (':real-form' if real_data else '')); ctx.case(('qpsk', call), nontrivial=True, sample=dict(call=call))
+        src = (pre + f'b = {call}\nnt = {nt}\nyr, yi, Fr, Fi = {[str(v) for v in yr]!r}, {[str(v) for v in yi]!r}, {[[str(v) for v in row] for row in Fr]!r}, {[[str(v) for v in row] for row in Fi]!r}\n'
+               'assert list(b.variables) == list(range(2 * nt)), ("QPSK: the real parts of the symbols followed by the imaginary parts", list(b.variables))\n'
+               'c = coef(b)\n'
+               'for s in itertools.product((-1, 1), repeat=2 * nt):\n'
+               '    p, q = s[:nt], s[nt:]\n'
+               '    re = [F(yr[k]) - sum(F(Fr[k][i]) * p[i] - F(Fi[k][i]) * q[i] for i in range(nt)) for k in range(len(yr))]\n'
+               '    im = [F(yi[k]) - sum(F(Fi[k][i]) * p[i] + F(Fr[k][i]) * q[i] for i in range(nt)) for k in range(len(yr))]\n'
+               '    assert en(c, dict(enumerate(s))) == sum(a * a for a in re) + sum(a * a for a in im), s\n')
+        bad = False
+        c = coef(b)
+        if b.vartype is not dimod.SPIN or list(b.variables) != list(range(2 * nt)):
+            bad = True
+            ctx.fail('property', site, cls, f'{call}: variables {list(b.variables)!r}; documented: the real parts of the {nt} symbols followed by their imaginary parts ({2 * nt} variables)', repro=src)
+        for s_ in itertools.product((-1, 1), repeat=2 * nt) if not bad else ():
+            p_, q_ = s_[:nt], s_[nt:]
+            re = [yr[k] - sum(Fr[k][i] * p_[i] - Fi[k][i] * q_[i] for i in range(nt)) for k in range(nr)]
+            im = [yi[k] - sum(Fi[k][i] * p_[i] + Fr[k][i] * q_[i] for i in range(nt)) for k in range(nr)]
+            want = sum(a * a for a in re) + sum(a * a for a in im)
+            got = energy(c, dict(enumerate(s_)))
+            if got != want:
+                bad = True
+                ctx.fail('property', site, cls, f'{call}: at p={p_} q={q_} energy {got}, ||y - F (p + iq)||^2 = {want}', repro=src)
+                break
+        mt = lambda M: ';'.join(','.join(map(rat, row)) for row in M)   # noqa: E731
+        lines.append(f"qpsk {nt} {','.join(map(rat, yr))} {','.join(map(rat, yi))} {mt(Fr)} {mt(Fi)}")
+        checks.append((site + ' vs Gen.mimoQpsk', cls, 'ok ' + canon_bqm(b), src, False))     # the model follows the code in both branches
+
+
 def run(ctx):
     r = ctx.rng
     ctx.rule = ('every gate generator with random labels (ints, strings, nested tuples) / strengths, both vartypes, every row of the truth table x every auxiliary value; '
@@ -1607,6 +1666,7 @@ def run(ctx):
     chimera_cases(ctx, r, lines, checks)
     mimo_cases(ctx, r, lines, checks)
     comp_cases(ctx, r, lines, checks)
+    qpsk_cases(ctx, r, lines, checks)
     ctx.notes.append('random generators: the NumPy generator is a contract (its draws are recorded and handed to the models as an explicit stream); placement of the draws, index maps, pair selection, capacities are modelled (Rnd.*) and proved; range / reproducibility over seeds stay validated; '
                      'multiplication circuit: "energy 0 (minimised over the internal wires) iff p = a*b, else >= 1" is proved for all n, m >= 2 (multiplication_circuit_zero_iff_product); the enumeration up to 3x3 stays as a test')
     got = run_driver('gendriver', lines)
